@@ -101,6 +101,13 @@ CLAIMED["C05"] = ("Compiler half only: (a) dataflow of the abstract tail flag th
     "forward dataflow over the CFG with a small powerset lattice {ENTRY,0,1,clobbered}; role table from AST accessors; dominance in the VM case",
     "3 C05")
 
+CLAIMED["C13"] = ("Inventory clause: every variable with static storage in the parsed units is either never written (no store, increment, or "
+    "address handed to a parameter through which a callee writes) or listed in an audited table with its allowed writer functions and the "
+    "reason it does not couple independent contexts; a new writable global or a new writer is reported. A necessary condition of context "
+    "isolation / race freedom on interpreter state; heap and symbol-table disjointness at run time and libc-internal state are not decided.",
+    "who-may-write inventory over all units: stores and address escapes of globals resolved through one level of callee write summaries and const-ness of external parameters",
+    "3 C13")
+
 # properties planned in DESIGN.md but whose checks are not built yet are listed
 # as not applicable *for now* with that reason, so the manifest never over-claims
 PENDING = {}
